@@ -413,6 +413,14 @@ class Replay:
         return self.interp.call(self.mod, fn, [language, model, options], None, None, '%s %s' % (self.mod.rel, fname))
 
 
+def is_abstract(fn):
+    if any((isinstance(d, ast.Name) and d.id == 'abstractmethod') or (isinstance(d, ast.Attribute) and d.attr == 'abstractmethod')
+           for d in fn.decorator_list):
+        return True
+    body = [st for st in fn.body if not (isinstance(st, ast.Expr) and isinstance(st.value, ast.Constant))]
+    return all(isinstance(st, ast.Pass) or (isinstance(st, ast.Raise) and 'NotImplementedError' in ast.unparse(st)) for st in body)
+
+
 def describe(v):
     if isinstance(v, R.InstVal):
         inner = ', '.join(describe(a) for a in v.args if isinstance(a, (R.InstVal, R.ClassVal)))
@@ -491,11 +499,11 @@ def run(chk):
     R_('C19.model-function', 'the runner\'s dispatch table has the model key and it resolves to a library recognize_* function', 40)
     R_('C19.model-registered', 'a model is registered for the file\'s culture, or only the English fallback can serve it because '
                                'the library has no classes for that language and model', 40)
-    R_('C19.handler', 'create_extractor / create_parser, re-played on the index, end in an extractor / parser instance', 150)
-    R_('C19.ctor', 'every instantiation made by the replay fits the constructor\'s signature', 100)
+    R_('C19.handler', 'create_extractor / create_parser, re-played on the index, end in an extractor / parser instance', 100)
+    R_('C19.ctor', 'every instantiation made by the replay fits the constructor\'s signature', 60)
     R_('C19.typename', 'every expected TypeName is one the serving model can produce', 40)
     R_('C19.inner-type', 'every expected inner resolution type is a parser type constant', 5)
-    R_('C19.dt-type', 'every expected extractor / parser Type is a type constant of that level', 150)
+    R_('C19.dt-type', 'every expected extractor / parser Type is a type constant of that level', 100)
     idx = get_index()
     rt = R.Routing(idx)
     rt.analyse()
@@ -563,7 +571,6 @@ def evaluate(st, specs, emit=True):
     for sf in specs:
         if sf.supported == 0:
             continue
-        relp = os.path.relpath(sf.path, REPO)
         if sf.lang not in runner.cultures:
             stats['no_culture'][sf.lang] = stats['no_culture'].get(sf.lang, 0) + sf.supported
             continue
@@ -697,9 +704,12 @@ def evaluate(st, specs, emit=True):
                     chain.append('%s: %r' % (cname, v))
                     continue
                 need = 'extract' if 'extractor' in cname else 'parse'
-                if idx.find_method(v.cls, need)[1] is None:
+                mfn = idx.find_method(v.cls, need)[1]
+                if mfn is None or is_abstract(mfn):
                     ok = False
-                    msg = '%s has no %s()' % (v.cls.name, need)
+                    msg = '%s has no concrete %s()' % (v.cls.name, need)
+                    chain.append('%s: no %s()' % (v.cls.name, need))
+                    continue
                 results[cname] = v
                 chain.append(describe(v))
             chk.judge(ok, 'C19.handler', con.mod.path, construct, ' ; '.join(chain),
@@ -768,8 +778,6 @@ def controls(st, specs):
         evaluate(st3, [fr], emit=False)
         fired |= {i.rule for i in sc2.insts if i.verdict == 'violation'}
     # constructor arity: a replayed instantiation with a surplus argument
-    for m in st['consumers'].values():
-        pass
     dt = next((c[0] for k, c in st['consumers'].items() if k[1] == 'Extractor'), None)
     if dt is not None:
         rp = Replay(st['idx'], dt.mod)
